@@ -65,6 +65,7 @@ type btree struct {
 	RootEmpty bool    `json:"re,omitempty"` // root board has no shape (folder-only root)
 	RootLink  string  `json:"rl,omitempty"`
 	Out       string  `json:"o,omitempty"` // CLI output path argument
+	Traced    bool    `json:"tr,omitempty"` // C34 thorough: run the built binary under crashtrace instead of in-process
 }
 
 func quoteName(s string) string {
